@@ -41,14 +41,35 @@ type Known struct {
 }
 
 func glob(p string) *regexp.Regexp {
+	// '*' matches anything; {a,b,c} is alternation; everything else is literal
 	var b strings.Builder
-	b.WriteString("^")
-	for _, part := range strings.Split(p, "*") {
-		b.WriteString(regexp.QuoteMeta(part))
-		b.WriteString(".*")
+	b.WriteString("(?s)^")
+	i := 0
+	for i < len(p) {
+		switch p[i] {
+		case '*':
+			b.WriteString(".*")
+			i++
+		case '{':
+			j := strings.IndexByte(p[i:], '}')
+			if j < 0 {
+				b.WriteString(regexp.QuoteMeta(p[i:]))
+				i = len(p)
+				break
+			}
+			alts := strings.Split(p[i+1:i+j], ",")
+			for k := range alts {
+				alts[k] = regexp.QuoteMeta(alts[k])
+			}
+			b.WriteString("(?:" + strings.Join(alts, "|") + ")")
+			i += j + 1
+		default:
+			b.WriteString(regexp.QuoteMeta(string(p[i])))
+			i++
+		}
 	}
-	s := strings.TrimSuffix(b.String(), ".*") + "$"
-	return regexp.MustCompile("(?s)" + s)
+	b.WriteString("$")
+	return regexp.MustCompile(b.String())
 }
 
 // LoadKnown reads the committed known-findings file.
@@ -209,6 +230,12 @@ func Normalise(s string) string {
 		s = s[:i]
 	}
 	s = strings.ReplaceAll(s, "\u00a0", " ")
+	// value-dependent tails of decoder messages (raw bytes of the offending token)
+	for _, cut := range []string{"invalid value", "invalid character", "unexpected token", "invalid UTF-"} {
+		if i := strings.Index(s, cut); i >= 0 {
+			s = s[:i+len(cut)]
+		}
+	}
 	s = rePos.ReplaceAllString(s, "")
 	s = rePkg.ReplaceAllString(s, "PKG")
 	s = reSel.ReplaceAllString(s, "x.F")
@@ -228,8 +255,16 @@ func (k *Known) matches(prop string, f *Finding) bool {
 	if k.Property != prop {
 		return false
 	}
-	if k.Symptom != "*" && k.Symptom != f.Symptom {
-		return false
+	if k.Symptom != "*" {
+		ok := false
+		for _, alt := range strings.Split(k.Symptom, "|") {
+			if alt == f.Symptom {
+				ok = true
+			}
+		}
+		if !ok {
+			return false
+		}
 	}
 	if !k.reCase.MatchString(f.Case) {
 		return false
@@ -280,6 +315,7 @@ func (r *Run) Finish() int {
 	exit := 0
 	// group new signatures by (case without value class, symptom, detail): one VIOLATION line
 	// and one replay file per group; the replay lists every member.
+	_ = os.RemoveAll(filepath.Join(VerifDir, "replays", r.Prop)) // replays of earlier runs are stale
 	groups := map[string][]string{}
 	var gorder []string
 	for _, s := range newSigs {
